@@ -101,7 +101,7 @@ class C06(Prop):
                                                   'sched.region_order'],
                 'require_probes': ['twin.compared', 'clones.same_type',
                                    'tracker.skipped'],
-                'min_evaluated': 500}
+                'min_evaluated': 150}
 
     def make_case(self, seed, tier):
         prof = dict(PROFILE)
